@@ -194,7 +194,7 @@ def run(ctx):
     log("[C07] TLC judged %d events (%d rejected before known findings); histories as modelled: %d/%d, really dirty: %d"
         % (lines, nbad, hist["agree"], hist["n"], hist["dirty"]))
     rc = V.finish()
-    nst = 0 if ctx.replay else self_test(procs[1][1], wd)
+    nst = self_test(procs[1][1], wd) if rc == 0 and not ctx.replay else 0   # only meaningful when the real traces were accepted
     cov = {"evaluations": stats["calls"], "distinct_nontrivial": stats["cases"],
            "rule": "evaluation = one SerializeTo call judged by TLC; non-trivial = a distinct layer value (input, first type, layer "
                    "index) written under 4 option sets into the fresh buffer and %d dirty histories, twice each" % khist,
